@@ -92,6 +92,9 @@ func suiteC19(cfg Config, res *Result) {
 		"{% autoescape off %}{% macro m(s, n, a=V) %}{{ a }}{% endmacro %}{{ m(\"OTHER\", 99) }}{% endautoescape %}",
 		"{% autoescape off %}{% macro m(t, l, i, a=V) %}{{ a }}{% endmacro %}{% with z=1 %}{{ m(\"OTHER\", nl, 7) }}{% endwith %}{% endautoescape %}",
 		"{% autoescape off %}{% firstof V \"\" %}{% endautoescape %}",
+		// an item of a list literal is a filtered term like any other
+		"{% autoescape off %}{% for q in [V] %}{{ q }}{% endfor %}{% endautoescape %}",
+		"{% autoescape off %}{% for q in [\"k\"|upper, V] %}{% if forloop.Last %}{{ q }}{% endif %}{% endfor %}{% endautoescape %}",
 		"{% autoescape off %}{% for q in l %}{% if forloop.First %}{{ V }}{% endif %}{% endfor %}{% endautoescape %}",
 		"{% autoescape off %}{% include \"p.tpl\" with q=V %}{% endautoescape %}",
 	}
@@ -143,6 +146,11 @@ func suiteC19(cfg Config, res *Result) {
 			src = "-" + src
 		}
 		pos := positions[rng.Intn(len(positions))]
+		for neg && strings.Contains(pos, " in [") {
+			// an item of a list literal is a filtered term; a signed one is an operator expression,
+			// which the engine refuses there at execution time (not this property's subject)
+			pos = positions[rng.Intn(len(positions))]
+		}
 		if rng.Chance(1, 6) && k > 0 && !neg {
 			// the filter tag: the chain applied to the rendered body
 			full := "{% autoescape off %}{% filter " + strings.TrimPrefix(chainSrc(steps), "|") + " %}{{ " + base + " }}{% endfilter %}{% endautoescape %}"
